@@ -66,13 +66,38 @@ wrap_line = partial(wrap_line_base, pad_func=pad_fortran)
 
 # {{{ name manager
 
+def _make_fortran_name_generator():
+    from pytools import UniqueNameGenerator
+
+    class FortranUniqueNameGenerator(UniqueNameGenerator):
+        """Fortran identifiers are case-insensitive, so names that differ
+        only in case conflict."""
+
+        def __init__(self):
+            super().__init__()
+            self._folded_names = set()
+
+        def is_name_conflicting(self, name):
+            return name.lower() in self._folded_names
+
+        def add_name(self, name, *, conflicting_ok=False):
+            super().add_name(name, conflicting_ok=conflicting_ok)
+            self._folded_names.add(name.lower())
+
+        def __call__(self, based_on="id"):
+            name = super().__call__(based_on)
+            self._folded_names.add(name.lower())
+            return name
+
+    return FortranUniqueNameGenerator()
+
+
 class FortranNameManager:
     """Maps names that appear in intermediate code to Fortran identifiers.
     """
 
     def __init__(self):
-        from pytools import UniqueNameGenerator
-        self.name_generator = UniqueNameGenerator()
+        self.name_generator = _make_fortran_name_generator()
         self.local_map = KeyToUniqueNameMap(name_generator=self.name_generator)
         self.global_map = KeyToUniqueNameMap(start={
                 "<t>": "dagrt_t", "<dt>": "dagrt_dt"},
